@@ -42,6 +42,7 @@ CONSTANTS
   Weak_NoDoubleSignCheck,     \* VerifyCommitLightTrusting without the seenVals check
   Weak_SeenByCommitSlotRange, \* seenVals sized by the COMMIT's length but indexed by the TRUSTED set's validator index:
                               \* a trusted validator whose index is >= len(commit.Signatures) is never remembered
+  Weak_TrustsEncodedTotal,    \* ValidatorSetFromProto copies an in-range total_voting_power of the encoded form into the cache
   Weak_NoBlockIDCheck,        \* VerifyCommit/Light do not compare the blockID argument with commit.BlockID
   Weak_SignBytesIgnoreRound   \* sign bytes do not bind the round
 
@@ -98,6 +99,33 @@ Total(vs) == SumPowersFrom(vs, 1)
 \* are non-negative, so the running sum exceeds it iff the total does)
 TotalPanics(vs) == NGt(Total(vs), NMaxTotal)
 
+\* ---------------------------------------------------------------- the set as the functions see it, and the wire
+\* A ValidatorSet object = its members + the cache vals.totalVotingPower.  TotalVotingPower()
+\* (validator_set.go:316) recomputes only when the cache is 0 -- whatever non-zero value sits in the
+\* cache IS the total every verification function uses.
+\*     ds == [vals |-> sequence of validators, cached |-> Number]
+InMemory(vs) == [vals |-> vs, cached |-> N0]      \* NewValidatorSet / struct literal: the total comes from the members
+TVP(ds)       == IF ds.cached = N0 THEN Total(ds.vals) ELSE ds.cached
+TVPPanics(ds) == ds.cached = N0 /\ TotalPanics(ds.vals)
+
+\* Wire form (ValidatorSet.ToProto, validator_set.go:932): enc == [vals, proposer, total].  Honest encoders
+\* write total = 0; the field, the proposer and the priorities are covered neither by ValidatorSet.Hash()
+\* nor by any signature, so an adversary (light-block provider, evidence gossip, tampered record) sets
+\* them freely.  proposer: the id of the validator record in the proposer field, "nil" if absent.
+Encode(vs, proposer, total) == [vals |-> vs, proposer |-> proposer, total |-> total]
+
+\* ValidatorSetFromProto (validator_set.go:961): members in the encoded order, proposer record must be
+\* present, the total is RECOMPUTED from the members (TotalVotingPower() on a zero cache; panics above
+\* MaxTotalVotingPower), ValidateBasic refuses the empty set.  Result: the SAME abstract set.
+DecodeValSet(enc) ==
+  LET cached0 == IF Weak_TrustsEncodedTotal /\ NGt(enc.total, N0) /\ ~NGt(enc.total, NMaxTotal) THEN enc.total ELSE N0
+      ds0     == [vals |-> enc.vals, cached |-> cached0]
+  IN
+  IF enc.proposer = "nil" THEN [ok |-> FALSE, err |-> "proposer", set |-> InMemory(<< >>)]
+  ELSE IF TVPPanics(ds0) THEN [ok |-> FALSE, err |-> "panic_total", set |-> InMemory(<< >>)]
+  ELSE IF Len(enc.vals) = 0 THEN [ok |-> FALSE, err |-> "empty", set |-> InMemory(<< >>)]
+  ELSE [ok |-> TRUE, err |-> "none", set |-> [vals |-> enc.vals, cached |-> TVP(ds0)]]
+
 \* safeMul(a, b) (validator_set.go:1086) reports overflow iff  a # 0 /\ b # 0 /\ |a| > MaxInt64 / |b|
 SafeMulOverflows(a, b) == IF a = N0 \/ b = N0 THEN FALSE ELSE NGt(a, NDiv(NMaxInt64, b))
 
@@ -125,12 +153,14 @@ VCLoop(vs, c, chain, k, tallied, needed) ==
                    IF s.flag = "commit" THEN NAdd(tallied, vs[k].power) ELSE tallied,  \* nil: verified, not tallied
                    needed)
 
-VerifyCommit(vs, c, chain, bid, h) ==
+VerifyCommitOn(ds, c, chain, bid, h) ==
+  LET vs == ds.vals IN
   IF Len(vs) # Len(c.sigs) THEN Reject("size")
   ELSE IF h # c.height THEN Reject("height")
   ELSE IF ~Weak_NoBlockIDCheck /\ bid # c.bid THEN Reject("blockid")
-  ELSE IF TotalPanics(vs) THEN Reject("panic_total")
-  ELSE VCLoop(vs, c, chain, 1, N0, NDiv(NMul(Total(vs), NOf(2)), NOf(3)))
+  ELSE IF TVPPanics(ds) THEN Reject("panic_total")
+  ELSE VCLoop(vs, c, chain, 1, N0, NDiv(NMul(TVP(ds), NOf(2)), NOf(3)))
+VerifyCommit(vs, c, chain, bid, h) == VerifyCommitOn(InMemory(vs), c, chain, bid, h)
 
 \* ---------------------------------------------------------------- VerifyCommitLight (validator_set.go:722)
 RECURSIVE VCLLoop(_, _, _, _, _, _)
@@ -146,12 +176,14 @@ VCLLoop(vs, c, chain, k, tallied, needed) ==
             IF Crosses(t, needed) THEN Accept                                      \* early exit: the rest is never looked at
             ELSE VCLLoop(vs, c, chain, k + 1, t, needed)
 
-VerifyCommitLight(vs, c, chain, bid, h) ==
+VerifyCommitLightOn(ds, c, chain, bid, h) ==
+  LET vs == ds.vals IN
   IF Len(vs) # Len(c.sigs) THEN Reject("size")
   ELSE IF h # c.height THEN Reject("height")
   ELSE IF ~Weak_NoBlockIDCheck /\ bid # c.bid THEN Reject("blockid")
-  ELSE IF TotalPanics(vs) THEN Reject("panic_total")
-  ELSE VCLLoop(vs, c, chain, 1, N0, NDiv(NMul(Total(vs), NOf(2)), NOf(3)))
+  ELSE IF TVPPanics(ds) THEN Reject("panic_total")
+  ELSE VCLLoop(vs, c, chain, 1, N0, NDiv(NMul(TVP(ds), NOf(2)), NOf(3)))
+VerifyCommitLight(vs, c, chain, bid, h) == VerifyCommitLightOn(InMemory(vs), c, chain, bid, h)
 
 \* ---------------------------------------------------------------- VerifyCommitLightTrusting (validator_set.go:775)
 \* seenVals is written before the signature is checked; a wrong signature returns at once, so
@@ -175,11 +207,12 @@ VCLTLoop(vs, c, chain, k, tallied, needed, seen) ==
 \* no size / height / blockID argument: the commit's own height, round and block id are what is verified.
 \* The commit belongs to ANOTHER validator set: its length and slot order are unrelated to vs, a slot's address
 \* may map to any index of vs (also to indices >= Len(c.sigs)) or to none
-VerifyCommitLightTrusting(vs, c, chain, num, den) ==
+VerifyCommitLightTrustingOn(ds, c, chain, num, den) ==
   IF den = N0 THEN Reject("zeroden")
-  ELSE IF TotalPanics(vs) THEN Reject("panic_total")
-  ELSE IF SafeMulOverflows(Total(vs), num) THEN Reject("overflow")
-  ELSE VCLTLoop(vs, c, chain, 1, N0, NDiv(NMul(Total(vs), num), den), {})
+  ELSE IF TVPPanics(ds) THEN Reject("panic_total")
+  ELSE IF SafeMulOverflows(TVP(ds), num) THEN Reject("overflow")
+  ELSE VCLTLoop(ds.vals, c, chain, 1, N0, NDiv(NMul(TVP(ds), num), den), {})
+VerifyCommitLightTrusting(vs, c, chain, num, den) == VerifyCommitLightTrustingOn(InMemory(vs), c, chain, num, den)
 
 \* ================================================================ reference (property C07)
 \* A slot counts for validator `id` iff it is flagged for-the-block and carries a signature
